@@ -34,6 +34,7 @@ def gen_cases(tier, seed):
             yield {"kind": "pair", "pert": "fit", "seed": "%d:fit%d-%d" % (seed, md, total), "maxdata": md, "size": total}
     for j in range(2 if tier == "quick" else 10):
         yield {"kind": "tcp", "seed": "%d:t%d" % (seed, j), "maxdata": [4096, 65536, 1024 * 1024][j % 3]}
+    yield {"kind": "signatures", "seed": "%d:sig" % seed}
     for j in range(2 if tier == "quick" else 10):
         yield {"kind": "tcpraw", "seed": "%d:r%d" % (seed, j)}
 
@@ -448,7 +449,48 @@ def run_tcpraw(case, stats):
     return "tcpraw|%s" % case["seed"], viol, {"case": case, "fragments": len(frags), "stream": len(stream)}, False
 
 
+def run_signatures(case, stats):
+    """the twins' public interfaces observed by introspection at run time: same methods, same parameters, same default values"""
+    import inspect
+    viol = []
+    pairs = [(repo.adb_device.AdbDevice, repo.adb_device_async.AdbDeviceAsync), (repo.adb_device.AdbDeviceTcp, repo.adb_device_async.AdbDeviceTcpAsync),
+             (repo.adb_device._AdbIOManager, repo.adb_device_async._AdbIOManagerAsync)]
+    from adb_shell.transport.tcp_transport import TcpTransport
+    from adb_shell.transport.tcp_transport_async import TcpTransportAsync
+    pairs.append((TcpTransport, TcpTransportAsync))
+    n = 0
+    for a, b in pairs:
+        names_a = set(k for k, v in inspect.getmembers(a) if callable(v) or isinstance(v, property))
+        names_b = set(k for k, v in inspect.getmembers(b) if callable(v) or isinstance(v, property))
+        names_a = set(k for k in names_a if not (k.startswith("__") and k != "__init__"))
+        names_b = set(k for k in names_b if not (k.startswith("__") and k != "__init__"))
+        for k in sorted(names_a ^ names_b):
+            if k in ("__aenter__", "__aexit__"):
+                continue
+            viol.append({"mechanism": "interface-differs", "detail": "%s has %r, %s does not" % ((a if k in names_a else b).__name__, k, (b if k in names_a else a).__name__)})
+        for k in sorted(names_a & names_b):
+            fa, fb = getattr(a, k), getattr(b, k)
+            if isinstance(fa, property) or isinstance(fb, property):
+                continue
+            try:
+                sa, sb = inspect.signature(fa), inspect.signature(fb)
+            except (TypeError, ValueError):
+                continue
+            n += 1
+            pa = [(p_.name, p_.kind, p_.default if not callable(p_.default) or p_.default is inspect.Parameter.empty else getattr(p_.default, "__name__", "?")) for p_ in sa.parameters.values()]
+            pb = [(p_.name, p_.kind, p_.default if not callable(p_.default) or p_.default is inspect.Parameter.empty else getattr(p_.default, "__name__", "?")) for p_ in sb.parameters.values()]
+            if pa != pb:
+                d = next((i for i in range(min(len(pa), len(pb))) if pa[i] != pb[i]), min(len(pa), len(pb)))
+                viol.append({"mechanism": "signature-differs", "detail": "%s.%s%s vs %s.%s%s (parameter #%d)" % (a.__name__, k, sa, b.__name__, k, sb, d)})
+    stats["signatures_compared"] = n
+    return "signatures", viol[:4], {"case": case, "methods_compared": n}
+
+
 def run_case(case):
+    if case["kind"] == "signatures":
+        stats = {"pairs": 0, "steps_compared": 0, "bytes_compared": 0, "pairs_with_exception": 0, "tcp_pairs": 0, "tcp_inconclusive": 0, "packets": 0}
+        sig, viol, sample = run_signatures(case, stats)
+        return {"sig": sig, "violations": viol, "stats": stats, "sample": sample}
     stats = {"pairs": 0, "steps_compared": 0, "bytes_compared": 0, "pairs_with_exception": 0, "tcp_pairs": 0, "tcp_inconclusive": 0, "packets": 0}
     if case["kind"] in ("tcp", "tcpraw"):
         for attempt in range(2):
